@@ -91,7 +91,11 @@ def generate_subgraphs(graph: IterationNode) -> list[IterationNode]:
             all_subgraphs.update(new_graphs)
             old_subgraphs = new_graphs
 
-    return list(all_subgraphs.values())
+    # Zeroing one tensor also zeroes the tensors multiplied by it, so a subgraph with few remaining sparse tensors can
+    # be discovered before one with more. Each subgraph must come after every subgraph it is a simplification of, and
+    # the subgraph with no sparse tensors must be last, so order them by decreasing number of sparse tensors. The sort
+    # is stable, so subgraphs that were already in order stay in order.
+    return sorted(all_subgraphs.values(), key=lambda subgraph: -len(subgraph.compressed_dimensions()))
 
 
 @to_ir_iteration_graph.register(IterationNode)
